@@ -325,6 +325,12 @@ class SymNP:
             out = np.empty(shape, dtype=object)
             out[...] = value
             return out.view(SymArray)
+        if is_int_dtype(dtype):
+            # integer work arrays may receive symbolic integers (bond partners, serial numbers);
+            # attribute converters turn them into real int arrays again when everything is concrete
+            out = np.empty(shape, dtype=object)
+            out[...] = builtins.int(value)
+            return out.view(SymArray)
         return None
 
     def zeros(self, shape, dtype=None, **kw):
